@@ -1,6 +1,8 @@
 package types
 
 import (
+	"unicode/utf8"
+
 	sdk "github.com/pokt-network/posmint/types"
 )
 
@@ -53,6 +55,10 @@ func (msg MsgChangeParam) ValidateBasic() sdk.Error {
 	}
 	if msg.ParamKey == "" {
 		return ErrEmptyKey(ModuleName)
+	}
+	// GetSignBytes is JSON, which replaces bytes that are not valid UTF-8: such a key could be altered after signing
+	if !utf8.ValidString(msg.ParamKey) {
+		return sdk.ErrTxDecode("the parameter key is not valid UTF-8")
 	}
 	if msg.ParamVal == nil {
 		return ErrEmptyValue(ModuleName)
@@ -150,6 +156,10 @@ func (msg MsgUpgrade) ValidateBasic() sdk.Error {
 	}
 	if msg.Upgrade.UpgradeVersion() == "" {
 		return ErrZeroHeightUpgrade(ModuleName)
+	}
+	// GetSignBytes is JSON, which replaces bytes that are not valid UTF-8: such a version could be altered after signing
+	if !utf8.ValidString(msg.Upgrade.UpgradeVersion()) {
+		return sdk.ErrTxDecode("the upgrade version is not valid UTF-8")
 	}
 	return nil
 }
